@@ -32,9 +32,19 @@ pub uninterp spec fn type_fn() -> int;
 #[verifier::external_body] fn native_clock() -> (r: NativeFn) ensures r.id == clock_fn() { unimplemented!() }
 #[verifier::external_body] fn native_type() -> (r: NativeFn) ensures r.id == type_fn() { unimplemented!() }
 
+//@yl_classes file=yarel/src/core.yl fn=core_class_names
 pub enum Bound { Native(int), Val(Value) }
 pub struct ClassStore { }
 impl ClassStore {
+    #[verifier::external_body] fn error_class(&self) -> Gc<ObjClass> { unimplemented!() }
+    #[verifier::external_body] fn runtime_error_class(&self) -> Gc<ObjClass> { unimplemented!() }
+    #[verifier::external_body] fn attribute_error_class(&self) -> Gc<ObjClass> { unimplemented!() }
+    #[verifier::external_body] fn index_error_class(&self) -> Gc<ObjClass> { unimplemented!() }
+    #[verifier::external_body] fn import_error_class(&self) -> Gc<ObjClass> { unimplemented!() }
+    #[verifier::external_body] fn name_error_class(&self) -> Gc<ObjClass> { unimplemented!() }
+    #[verifier::external_body] fn type_error_class(&self) -> Gc<ObjClass> { unimplemented!() }
+    #[verifier::external_body] fn value_error_class(&self) -> Gc<ObjClass> { unimplemented!() }
+    #[verifier::external_body] fn stop_iter_class(&self) -> Gc<ObjClass> { unimplemented!() }
     #[verifier::external_body] fn base_metaclass(&self) -> Gc<ObjClass> { unimplemented!() }
     #[verifier::external_body] fn boolean_class(&self) -> Gc<ObjClass> { unimplemented!() }
     #[verifier::external_body] fn closure_class(&self) -> Gc<ObjClass> { unimplemented!() }
@@ -53,21 +63,21 @@ impl ClassStore {
     #[verifier::external_body] fn tuple_class(&self) -> Gc<ObjClass> { unimplemented!() }
     #[verifier::external_body] fn vec_class(&self) -> Gc<ObjClass> { unimplemented!() }
 }
-pub struct Vm { pub class_store: ClassStore, pub string_class: Option<Root<ObjClass>>, pub ghost printer_id: int, pub ghost writes: Seq<(Seq<char>, Seq<char>, Bound)> }
+pub struct Vm { pub class_store: ClassStore, pub string_class: Option<Root<ObjClass>>, pub ghost printer_id: int, pub ghost writes: Seq<(Seq<char>, Seq<char>, Bound)>, pub ghost bound_names: Set<Seq<char>> }
 impl Vm {
     #[verifier::external_body] fn printer_fn(&self) -> (r: NativeFn) ensures r.id == self.printer_id { unimplemented!() }
     // vm.rs define_native: a fresh native object for `function`, bound to `var_name` in the module registered under `module_name`
     #[verifier::external_body]
     fn define_native(&mut self, module_name: &str, var_name: &str, function: NativeFn)
-        ensures final(self).writes == old(self).writes.push((module_name@, var_name@, Bound::Native(function.id))), final(self).printer_id == old(self).printer_id
+        ensures final(self).writes == old(self).writes.push((module_name@, var_name@, Bound::Native(function.id))), final(self).printer_id == old(self).printer_id, final(self).bound_names == old(self).bound_names.insert(var_name@)
     { unimplemented!() }
     #[verifier::external_body]
     fn set_global(&mut self, module_name: &str, var_name: &str, value: Value)
-        ensures final(self).writes == old(self).writes.push((module_name@, var_name@, Bound::Val(value))), final(self).printer_id == old(self).printer_id
+        ensures final(self).writes == old(self).writes.push((module_name@, var_name@, Bound::Val(value))), final(self).printer_id == old(self).printer_id, final(self).bound_names == old(self).bound_names.insert(var_name@)
     { unimplemented!() }
     // vm.rs global: what a module currently binds a name to (anything)
     #[verifier::external_body]
-    fn global(&mut self, module_name: &str, var_name: &str) -> (r: Option<Value>) ensures final(self).writes == old(self).writes, final(self).printer_id == old(self).printer_id { unimplemented!() }
+    fn global(&mut self, module_name: &str, var_name: &str) -> (r: Option<Value>) ensures final(self).writes == old(self).writes, final(self).printer_id == old(self).printer_id, final(self).bound_names == old(self).bound_names { unimplemented!() }
     #[verifier::external_body]
     fn string_class_gc(&self) -> Gc<ObjClass> { unimplemented!() }
 
@@ -81,6 +91,7 @@ impl Vm {
     //@  rewrite R28
     //@  ensures @built_ins_are_written_into_the_named_module_only final(self).writes.len() >= old(self).writes.len() && final(self).writes.subrange(0, old(self).writes.len() as int) == old(self).writes && forall|i: int| old(self).writes.len() <= i < final(self).writes.len() ==> (#[trigger] final(self).writes[i]).0 == module_path@
     //@  ensures @the_native_built_ins_are_the_vms_own_functions_whatever_any_module_binds_those_names_to final(self).wrote(old(self).writes.len() as int, module_path@, "clock"@, Bound::Native(clock_fn())) && final(self).wrote(old(self).writes.len() as int, module_path@, "type"@, Bound::Native(type_fn())) && final(self).wrote(old(self).writes.len() as int, module_path@, "print"@, Bound::Native(old(self).printer_id))
+    //@  ensures @every_module_is_given_every_class_the_core_library_defines forall|k: int| 0 <= k < core_class_names().len() ==> final(self).bound_names.contains(#[trigger] core_class_names()[k])
     //@  at body.start let ghost n0 = self.writes.len() as int;
     //@  at body.end proof { assert(self.writes[n0] == (module_path@, "clock"@, Bound::Native(clock_fn()))); assert(self.writes[n0 + 1] == (module_path@, "type"@, Bound::Native(type_fn()))); assert(self.writes[n0 + 2] == (module_path@, "print"@, Bound::Native(old(self).printer_id))); }
     //@end
